@@ -31,3 +31,26 @@ func (e Etc) ProcessTailExp(p TailExpProcessor) {
 func (e Etc) HWrite(w HWriter) {
 	w.Writef("...")
 }
+
+// InBrackets turns the receiver into a BEtc.
+func (e Etc) InBrackets() BEtc {
+	return BEtc{Location: e.Location}
+}
+
+// BEtc is "..." in brackets, i.e. "(...)".  Unlike Etc it is not a tail
+// expression: it is always adjusted to exactly one value.
+type BEtc struct {
+	Location
+}
+
+var _ ExpNode = BEtc{}
+
+// ProcessExp uses the given ExpProcessor to process the receiver.
+func (e BEtc) ProcessExp(p ExpProcessor) {
+	p.ProcessEtcExp(Etc{Location: e.Location})
+}
+
+// HWrite prints a tree representation of the node.
+func (e BEtc) HWrite(w HWriter) {
+	w.Writef("(...)")
+}
